@@ -7,7 +7,7 @@ import mapsrc
 
 META = {
     'theorem_files': ['Props/C15.v'],
-    'theorems': [],
+    'theorems': ['C15_total', 'C15_exact', 'C15_sound', 'C15_control_char_preempts', 'C15_bool_iff_error'],
     'trusted_base': [
         'Coq 8.16.1 kernel; no native_compute',
         'Model/Element.v: hand transcription of element_if.is_valid/_is_valid_code, composite_if.is_valid, segment_if.is_valid '
